@@ -44,6 +44,12 @@ def bilinear_nodes(rows, cols, f, rng):
 def make_image(c):
     rng = np.random.default_rng(c["seed"])
     rows, cols, f = c["rows"], c["cols"], c["factor"]
+    if c.get("dtype", "f4").startswith("i"):
+        # integer pixel types: random counts, or a plane with integer coefficients (linear between nodes AND integer valued)
+        if c["kind"] == "random":
+            return rng.integers(-3000, 3000, size=(rows, cols)).astype(c["dtype"])
+        a, b, k = (int(v) for v in rng.integers(-8, 8, size=3))
+        return (a * np.arange(rows)[:, None] + b * np.arange(cols)[None, :] + k).astype(c["dtype"])
     if c["kind"] == "random":
         img = rng.normal(size=(rows, cols)).astype(np.float32)
     elif c["kind"] == "nodes":
@@ -51,19 +57,19 @@ def make_image(c):
     else:
         a, b, k = rng.integers(-8, 8, size=3) / 8.0
         img = (a * np.arange(rows)[:, None] + b * np.arange(cols)[None, :] + k).astype(np.float32)
-    return img
+    return img.astype(c.get("dtype", "f4"))
 
 
 def make_hdu(c, img):
     hdu = fits.PrimaryHDU(img.copy())
     w = refs.ZWCS("SIN", c["crval"][0], c["crval"][1], c["crpix"][0], c["crpix"][1],
-                  -c["scale"] / 3600.0, c["scale"] / 3600.0)
+                  -c["scale"] / 3600.0, c["scale"] / 3600.0, c.get("cdrot", 0.0))
     for k, v in w.header_cards(cd=c["cd"]).items():
         hdu.header[k] = v
     return hdu
 
 
-KEYS = ("CRPIX1", "CRPIX2", "CDELT1", "CDELT2", "CD1_1", "CD2_2", "CRVAL1", "CRVAL2", "CTYPE1", "CTYPE2")
+KEYS = ("CRPIX1", "CRPIX2", "CDELT1", "CDELT2", "CD1_1", "CD2_2", "CD1_2", "CD2_1", "CRVAL1", "CRVAL2", "CTYPE1", "CTYPE2")
 
 
 def check_case(c):
@@ -185,6 +191,10 @@ case_strategy = st.integers(1, 64).flatmap(lambda f: st.fixed_dictionaries({
     "kind": st.sampled_from(["random", "nodes", "nodes", "plane"]),
     "route": st.sampled_from(["file", "file", "hdu", "sr6"]),
     "cd": st.booleans(), "aux": st.booleans(),
+    # pixel type of the image handed to compress (the maps are float32 whatever comes in), and a CD matrix with off-diagonal
+    # terms (deg of rotation; the code documents that compress/expand leave CD1_2/CD2_1 alone - they must come back as given)
+    "dtype": st.sampled_from(["f4", "f4", "f4", "f8", "i2", "i4"]),
+    "cdrot": st.sampled_from([0.0, 0.0, 0.0, 12.0, -40.0]),
     "crval": st.tuples(st.floats(0, 359.99), st.floats(-80, 80)),
     "crpix": st.tuples(st.floats(-1000, 1000), st.floats(-1000, 1000)),
     "scale": st.floats(1, 600), "seed": st.integers(0, 2 ** 31 - 1)}))
